@@ -280,16 +280,18 @@ def dump_entry(e, key=None):
 _DEC = {}
 def _dec_row(s):
     """None when decoding is the identity, else the table row"""
-    if s not in _DEC:
-        import codecs, latexcodec  # noqa
-        try:
-            d = codecs.decode(s, 'ulatex')
-            _DEC[s] = None if d == s else [norm(s), [norm(d)]]
-        except Exception:
-            _DEC[s] = [norm(s), []]
-        if len(_DEC) > 200000:
-            _DEC.clear()
-    return _DEC[s]
+    if s in _DEC:
+        return _DEC[s]
+    import codecs, latexcodec  # noqa
+    try:
+        d = codecs.decode(s, 'ulatex')
+        r = None if d == s else [norm(s), [norm(d)]]
+    except Exception:
+        r = [norm(s), []]
+    if len(_DEC) > 200000:
+        _DEC.clear()
+    _DEC[s] = r
+    return r
 
 def dec_table(strings):
     out = []
@@ -378,13 +380,8 @@ def classify(f):
     try:
         return [0, f()]
     except FieldIsMissing as e:
-        msg = str(e)
         fld = getattr(e, 'field_name', None)
-        pre = 'missing %s in ' % (fld,)
-        key = msg[len(pre):] if isinstance(fld, str) and msg.startswith(pre) else None
-        if isinstance(fld, str) and key is not None:
-            return [1, norm(fld), norm(key), norm(msg)]
-        return [1, [], [], norm(msg)]
+        return [1, norm(fld) if isinstance(fld, str) else [], norm(str(e))]
     except PybtexError:
         return [1]
     except RecursionError:
@@ -562,7 +559,8 @@ def canon(fn, out):
     if out[0] == 0:
         return [0, out[1]]
     if out[0] == 1:
-        return out[:3] if len(out) >= 3 else [1]
+        # FieldIsMissing: the field named; which entry the message names is checked by the oracle
+        return out[:2] if len(out) >= 3 else [1]
     return out[:1]
 
 # ------------------------------------------------------------------------------------------
@@ -885,14 +883,14 @@ def oracle_bib(arg, out):
     if lab_alpha and any(not ps for e in ents for r, ps in e[3]):
         return None
     if first_missing:
-        if out[0] == 1 and len(out) >= 4 and S(out[1]) == first_missing[0] and S(out[2]) == first_missing[1] \
-           and first_missing[0] in S(out[3]) and first_missing[1] in S(out[3]):
+        if out[0] == 1 and len(out) >= 3 and S(out[1]) == first_missing[0] \
+           and first_missing[0] in S(out[2]) and first_missing[1] in S(out[2]):
             return None
         return 'required field %r of entry %r is missing but no pybtex error naming both was raised (got %s)' % (
-            first_missing[0], first_missing[1], 'an error naming %r/%r' % (S(out[1]), S(out[2])) if out[0] == 1 and len(out) >= 3 else {0: 'a bibliography', 1: 'another pybtex error', 2: 'a foreign exception'}.get(out[0]))
+            first_missing[0], first_missing[1], 'the error %r' % (S(out[2]),) if out[0] == 1 and len(out) >= 3 else {0: 'a bibliography', 1: 'another pybtex error', 2: 'a foreign exception'}.get(out[0]))
     if out[0] != 0:
         return 'no bibliography produced for a well-formed database with all required fields: %s' % (
-            'pybtex error' + (' missing %s in %s' % (S(out[1]), S(out[2])) if len(out) >= 3 else '') if out[0] == 1 else 'foreign exception')
+            'pybtex error' + (' %r' % (S(out[2]),) if len(out) >= 3 else '') if out[0] == 1 else 'foreign exception')
     res = out[1]
     rend = out[2] if len(out) > 2 else None
     got = [S(r[0]) for r in res]
@@ -1265,7 +1263,7 @@ def gen(tier, rng):
             return rng.choice(pool)
         cs = [rtree(d - 1) for _ in range(rng.choice([0, 1, 2, 2, 3, 4]))]
         return rng.choice(list(wrap_kinds(cs)))
-    for i in range(2500 if quick else 40000):
+    for i in range(2500 if quick else 20000):
         yield ('random_trees', 2, [rtree(3), ENT2, [DB2] if rng.random() < 0.8 else None, rng.randrange(2), rng.randrange(2)])
     # ---- names
     parts = [[], ['A'], ['Ab'], ['Abc'], ['Jean-Paul'], ['J.', 'R'], ['{Xy}', 'de', 'Zed'], ['a b'], ['x', 'y', 'z', 'w']]
@@ -1295,7 +1293,7 @@ def gen(tier, rng):
                     lab_entries.append([typ, flds, [['editor', [lab_people[0], lab_people[1]]]]])
     for i, (typ, flds, per) in enumerate(lab_entries):
         yield ('exhaustive_label', 9, [['Key%d' % i, typ, flds, per]])
-    for i in range(1500 if quick else 20000):
+    for i in range(1500 if quick else 10000):
         n = rng.choice([1, 2, 3, 3, 4, 5, 6])
         es = []
         for j in range(n):
@@ -1324,7 +1322,7 @@ def gen(tier, rng):
                     e = rand_entry(rng, rng.choice(KEYS), typ, pat, proles)
                     yield ('type_patterns', 1, [rand_cfg(rng, strict=1), [e], None])
     # ---- random databases
-    for i in range(1200 if quick else 25000):
+    for i in range(1200 if quick else 12000):
         db = rand_db(rng, rng.choice([1, 2, 3, 3, 4, 5, 6]))
         if rng.random() < 0.6:
             # make required fields mostly present so that whole bibliographies are produced
